@@ -8,6 +8,7 @@ import (
 	"runtime/debug"
 	"strings"
 	"sync"
+	"time"
 
 	"github.com/jig/lisp/types"
 
@@ -52,7 +53,7 @@ func c08Install(e types.EnvType, m *c08Mon) {
 	}})
 }
 
-var c08Constructs = []string{"fn-last", "fn-multi", "do", "let-list", "let-vector", "if-then", "if-else", "cond", "and", "or", "quasiquote-unquote", "let-3"}
+var c08Constructs = []string{"fn-last", "fn-multi", "do", "let-list", "let-vector", "if-then", "if-else", "cond", "and", "or", "quasiquote-unquote", "let-3", "if-one-armed", "do-single", "and-single", "or-single", "fn-rest-params", "nonsymbol-head"}
 
 // c08Tail wraps call (an expression) in d tail-position constructs.
 func c08Tail(r *rand.Rand, call string, d int, used map[string]bool) string {
@@ -77,6 +78,18 @@ func c08Tail(r *rand.Rand, call string, d int, used map[string]bool) string {
 		return "(let (t 1 u 2 w (+ t u)) (depth-iter!) " + inner + ")"
 	case "if-then":
 		return "(if true " + inner + " :no)"
+	case "if-one-armed":
+		return "(if true " + inner + ")"
+	case "do-single":
+		return "(do " + inner + ")"
+	case "and-single":
+		return "(and " + inner + ")"
+	case "or-single":
+		return "(or " + inner + ")"
+	case "fn-rest-params":
+		return "((fn (& r) " + inner + ") 1 2)"
+	case "nonsymbol-head":
+		return "((if true (fn () " + inner + ") nil))"
 	case "if-else":
 		return "(if nil :no " + inner + ")"
 	case "cond":
@@ -128,8 +141,8 @@ func runC08(c *fw.Ctx) {
 	base := hx.NewStdEnv()
 	r := c.Rand("shapes")
 	maxD := c.Pick(4, 6)
-	nShapes := c.PerShard(c.Pick(160, 16000))
-	nLong := c.PerShard(c.Pick(16, 640))
+	nShapes := c.PerShard(c.Pick(480, 16000))
+	nLong := c.PerShard(c.Pick(32, 640))
 	for i := 0; i < nShapes; i++ {
 		defs, used, nfn := c08Shape(r, maxD)
 		long := i < nLong
@@ -142,7 +155,13 @@ func runC08(c *fw.Ctx) {
 				return
 			}
 			var depths []int
+			slow := false
+			var perIter time.Duration
 			for _, n := range []int{3, 30, 300, 3000} {
+				if n == 3000 && slow {
+					n = 900 // shapes dominated by macro expansion: keep the largest run affordable (sizing only, no verdict)
+				}
+				tStart := time.Now()
 				// make n a multiple of the number of functions plus a fixed remainder so that the base case is
 				// always reached in the same function
 				nn := n - n%nfn
@@ -159,6 +178,12 @@ func runC08(c *fw.Ctx) {
 					return
 				}
 				depths = append(depths, mon.base[0])
+				if n == 300 && time.Since(tStart) > 60*time.Millisecond {
+					slow = true
+				}
+				if n >= 900 {
+					perIter = time.Since(tStart) / time.Duration(nn)
+				}
 				// per-iteration depths: group by (iteration index mod period) is unnecessary - each depth-iter! site is
 				// reached at the same relative nesting in every iteration, so the multiset per site must not grow with n.
 				// Check monotone growth: the maximum over the run must equal the maximum over the first period.
@@ -189,7 +214,7 @@ func runC08(c *fw.Ctx) {
 			c.Distinct("shapes", defs)
 			for _, d := range depths[1:] {
 				if d != depths[0] {
-					c.Violate(fw.Violation{Key: "depth-depends-on-n:" + c08Key(used), What: fmt.Sprintf("host stack depth at the base case for n=3,30,300,3000: %v (must be identical)", depths)})
+					c.Violate(fw.Violation{Key: "depth-depends-on-n:" + c08Key(used), What: fmt.Sprintf("host stack depth at the base case for n=3,30,300,3000 (900 for slow shapes): %v (must be identical)", depths)})
 					return
 				}
 			}
@@ -197,9 +222,16 @@ func runC08(c *fw.Ctx) {
 				// 10^6 iterations under a 4 MiB stack cap: dies with a fatal stack overflow if elimination is lost
 				old := debug.SetMaxStack(4 << 20)
 				done := make(chan hx.Outcome, 1)
+				// up to 10^6 iterations, sized to about 8 s from the measured per-iteration cost (never fewer than 30000:
+				// without elimination 30000 levels already need > 50 MiB of stack against the 4 MiB cap)
 				iters := 1000000
-				if used["and"] || used["or"] || used["cond"] {
-					iters = 100000 // macro expansion per iteration is ~50x slower; 10^5 levels would still need ~200 MiB of stack
+				if perIter > 0 {
+					if n := int(8 * time.Second / perIter); n < iters {
+						iters = n
+					}
+				}
+				if iters < 30000 {
+					iters = 30000
 				}
 				c.Count("long_run_iterations", iters)
 				go func() { done <- hx.EvalText(context.Background(), fmt.Sprintf("(f0 %d)", iters-iters%nfn), env) }()
@@ -235,7 +267,7 @@ func init() {
 	fw.Register(&fw.Property{
 		ID:     "C08",
 		Run:    runC08,
-		Rule:   "seeded loop shapes: 1-3 mutually recursive functions whose recursive call sits in tail position under 1-4 (quick) / 1-6 (thorough) nested constructs from {fn body last form, fn with several body forms, do, let with list/vector/3 bindings, if then, if else, cond (first/last/middle clause), and, or, quasiquote-unquote}, base case in then/else/cond branch or recursion through a closure held in a let; a harness builtin reports runtime.Callers depth at the base case for n = 3, 30, 300, 3000 (must be identical) and at instrumented points of every iteration (must not grow); a subset also runs 10^6 iterations under debug.SetMaxStack(4 MiB) in the worker process; distinct = distinct shape texts",
+		Rule:   "seeded loop shapes: 1-3 mutually recursive functions whose recursive call sits in tail position under 1-4 (quick) / 1-6 (thorough) nested constructs from {fn body last form, fn with several body forms, do, let with list/vector/3 bindings, if then, if else, one-armed if, cond (first/last/middle clause), and, or (several operands and single operand), single-form do, closures with & rest parameters, non-symbol call heads, quasiquote-unquote}, base case in then/else/cond branch or recursion through a closure held in a let; a harness builtin reports runtime.Callers depth at the base case for n = 3, 30, 300, 3000 (must be identical) and at instrumented points of every iteration (must not grow); a subset also runs 10^6 iterations under debug.SetMaxStack(4 MiB) in the worker process; distinct = distinct shape texts",
 		Assume: []string{"try bodies and handlers are not tail positions in the statement", "stepper mode deliberately recurses"},
 		Finish: func(m *fw.Merged) {
 			m.Floor("shapes", 200)
